@@ -25,6 +25,11 @@ CLAIMED = {
     note=TB + "Hypothesis made explicit: every rank carries the same ProfilerStep names (the code counts steps in the global symbol table); C12_trim_no_steps states what happens otherwise.",
     technique="Lean 4 proof (fold invariants, membership/Nodup of the trimming join) + model/implementation correspondence",
     design="7/C12"),
+  "C17": dict(
+    text="Lean 4 theorems: C17_rows_are_names (one row per name occurring in either trace, no others, no duplicates), C17_row_values (counts and total durations are those of the matching events; differences are test minus control), C17_classes_partition (for every row exactly one of the five ops_diff selections holds), C17_self_diff (a trace compared with itself: only unchanged, zero differences), C17_extract_exact (selection by iteration and device side is a pure filter). shorten_name is modelled and compared on every generated name. Tied to TraceDiff.compare_traces / ops_diff over rank subsets, iteration selections, device filters, long/short names, and self comparison (same object and separate objects) by a differential run and a Python oracle.",
+    note=TB + "The iteration column of the parse-only frames is the model's input (C12 decides it). Row order of the table is not compared.",
+    technique="Lean 4 proof (group-by as filter/sum, case analysis on counts) + model/implementation correspondence",
+    design="7/C17"),
   "C04": dict(
     text="Lean 4 theorem C04_temporal_partition: for every non-empty list of non-negative device intervals and every start-sorted permutation of it, the merge routine's numbers equal the unit-cell measures of the span/idle/compute/remainder and sum exactly to kernel_time. Tied to the code by a differential run of get_temporal_breakdown against the executable model, plus Spec.C04.check and an independent Python oracle evaluated on the implementation's own output.",
     note=TB + "Percent columns compared within 0.006 (float rounding not modelled). Kernel-type regexes modelled as prefix/infix tests and compared against Python re on every generated name.",
